@@ -10,7 +10,9 @@
 //! factory by `service()` (`s`), `ServiceFactory::new_service` (`f`), with a clone of the factory before
 //! (`cs`, `cf`) or of the service after (`sc`, `fc`), constructed directly (`k`, `kc`) or from `Default`
 //! (`d`, `ds`, `df`).  The oracle judges every op against the configuration the FACTORY was given.  Requests:
-//! `s=` a `String`, `t=` a `&'static str`, `h=` a custom `Host` impl; `from` = `ConnectInfo::from`.
+//! `s=` a `String`, `t=` a `&'static str`, `h=` a custom `Host` impl, `u=` / `v=` an `http::Uri` (http 1 / http 0.2,
+//! actix-tls feature `uri`; expected hostname and port from `parse_uri_text` + `WELL_KNOWN_PORTS`, an independent
+//! table); `from` = `ConnectInfo::from`.
 //!
 //! C18 cases (`case <name> kind=acc max=<n|default> tmo=<ms|default>`): the header builds factory 0
 //! (`Acceptor::new`, `set_handshake_timeout`) and service 0 of both flavours; `fnew` / `fset f ms` / `fclone f` /
@@ -133,6 +135,9 @@ mod conn {
         S(String),
         T(&'static str),
         H(String, Option<u16>),
+        /// `http::Uri` requests (actix-tls feature `uri`), http 1 and http 0.2, with the text they were parsed from
+        U1(http_1::Uri, String),
+        U0(http_0_2::Uri, String),
     }
     impl Host for HostReq {
         fn hostname(&self) -> &str {
@@ -140,6 +145,8 @@ mod conn {
                 HostReq::S(s) => Host::hostname(s),
                 HostReq::T(s) => Host::hostname(s),
                 HostReq::H(h, _) => h,
+                HostReq::U1(u, _) => Host::hostname(u),
+                HostReq::U0(u, _) => Host::hostname(u),
             }
         }
         fn port(&self) -> Option<u16> {
@@ -147,9 +154,120 @@ mod conn {
                 HostReq::S(s) => Host::port(s),
                 HostReq::T(s) => Host::port(s),
                 HostReq::H(_, p) => *p,
+                HostReq::U1(u, _) => Host::port(u),
+                HostReq::U0(u, _) => Host::port(u),
             }
         }
     }
+
+    /// Reference for the oracle, written here and never read back from the code under test: the well-known
+    /// port of a URI scheme (IANA service name and port registry; the registered defaults of the databases).
+    pub const WELL_KNOWN_PORTS: &[(&str, u16)] = &[
+        ("http", 80),       // RFC 9110
+        ("https", 443),     // RFC 9110
+        ("ws", 80),         // RFC 6455: ws uses port 80 ...
+        ("wss", 443),       // ... and wss port 443
+        ("amqp", 5672),     // IANA: amqp 5672
+        ("amqps", 5671),    // IANA: amqps 5671
+        ("mqtt", 1883),     // IANA: mqtt 1883
+        ("mqtts", 8883),    // IANA: secure-mqtt 8883
+        ("ftp", 21),        // IANA: ftp 21
+        ("ftps", 990),      // IANA: ftps 990
+        ("redis", 6379),    // IANA: redis 6379
+        ("mysql", 3306),    // IANA: mysql 3306
+        ("postgres", 5432), // IANA: postgresql 5432
+    ];
+
+    /// the parts of a URI op text: `<scheme>://<host>[:<port>][/<path>]`, `<host>[:<port>]`, `/<path>`
+    /// (the op grammar, the same as the model driver's; a subset of what `http::Uri` accepts)
+    pub struct UriText {
+        pub scheme: Option<String>,
+        pub host: Option<String>,
+        pub port: Option<u16>,
+    }
+    pub fn parse_uri_text(s: &str) -> Option<UriText> {
+        let host_ch = |c: char| c.is_ascii_lowercase() || c.is_ascii_digit() || c == '.' || c == '-';
+        let path_ch = |c: char| host_ch(c) || c == '/' || c == '_';
+        let authority = |a: &str| -> Option<(String, Option<u16>)> {
+            let (h, rest) = if let Some(r) = a.strip_prefix("[::1]") { ("[::1]", r) } else { a.split_at(a.find(':').unwrap_or(a.len())) };
+            if h.is_empty() || !(h == "[::1]" || h.chars().all(host_ch)) {
+                return None;
+            }
+            if rest.is_empty() {
+                return Some((h.to_string(), None));
+            }
+            let p = rest.strip_prefix(':')?;
+            if p.is_empty() || p.len() > 5 || !p.chars().all(|c| c.is_ascii_digit()) || (p.len() > 1 && p.starts_with('0')) {
+                return None;
+            }
+            Some((h.to_string(), Some(p.parse::<u32>().ok().filter(|v| *v <= 65535)? as u16)))
+        };
+        if s.is_empty() {
+            return None;
+        }
+        if s.starts_with('/') {
+            return if s.chars().all(path_ch) { Some(UriText { scheme: None, host: None, port: None }) } else { None };
+        }
+        let pre = &s[..s.find(':').unwrap_or(s.len())];
+        let rest = &s[pre.len()..];
+        if let Some(after) = rest.strip_prefix("://") {
+            let auth = &after[..after.find('/').unwrap_or(after.len())];
+            let path = &after[auth.len()..];
+            let scheme_ok = s.chars().next().is_some_and(|c| c.is_ascii_lowercase())
+                && pre.chars().all(|c| c.is_ascii_lowercase() || c.is_ascii_digit() || "+.-".contains(c))
+                && pre.len() <= 64;
+            if !scheme_ok || !path.chars().all(path_ch) {
+                return None;
+            }
+            let (h, p) = authority(auth)?;
+            Some(UriText { scheme: Some(pre.to_string()), host: Some(h), port: p })
+        } else {
+            let (h, p) = authority(s)?;
+            Some(UriText { scheme: None, host: Some(h), port: p })
+        }
+    }
+
+    impl HostReq {
+        /// What the request's hostname and own port ARE, from the op text alone (the oracle's reference): the
+        /// part of a host string before its first `:` and the part after it if that is a u16; a custom
+        /// `Host`'s values; a URI's host (or `""`) and its explicit port, else the scheme's well-known port
+        pub fn expected(&self) -> (String, Option<u16>) {
+            let of_str = |h: &str| match h.split_once(':') {
+                Some((n, p)) => (n.to_string(), p.parse::<u16>().ok()),
+                None => (h.to_string(), None),
+            };
+            match self {
+                HostReq::S(h) => of_str(h),
+                HostReq::T(h) => of_str(h),
+                HostReq::H(n, p) => (n.clone(), *p),
+                HostReq::U1(_, text) | HostReq::U0(_, text) => {
+                    let u = parse_uri_text(text).expect("checked when the op was parsed");
+                    let by_scheme = u.scheme.as_deref().and_then(|s| WELL_KNOWN_PORTS.iter().find(|(n, _)| *n == s).map(|(_, p)| *p));
+                    (u.host.unwrap_or_default(), u.port.or(by_scheme))
+                }
+            }
+        }
+        /// `s=` | `t=` | `u=` (http 1 `Uri`) | `v=` (http 0.2 `Uri`); `None` = not such a token / malformed
+        pub fn of_token(subst: impl Fn(&str) -> Option<String>, w: &str) -> Option<HostReq> {
+            if let Some(s) = w.strip_prefix("s=") {
+                Some(HostReq::S(subst(s)?))
+            } else if let Some(s) = w.strip_prefix("t=") {
+                // `&'static str` request (leaked: a test process)
+                Some(HostReq::T(Box::leak(subst(s)?.into_boxed_str())))
+            } else if let Some(s) = w.strip_prefix("u=") {
+                let text = subst(s)?;
+                parse_uri_text(&text)?;
+                Some(HostReq::U1(text.parse().ok()?, text))
+            } else if let Some(s) = w.strip_prefix("v=") {
+                let text = subst(s)?;
+                parse_uri_text(&text)?;
+                Some(HostReq::U0(text.parse().ok()?, text))
+            } else {
+                None
+            }
+        }
+    }
+
     /// address template of a resolver script: endpoint, or ip + (fixed port | the port passed to lookup)
     #[derive(Clone, Debug)]
     pub enum AddrT {
@@ -413,11 +531,8 @@ fn parse_conn_op(cx: &Ctx, ws: &[&str]) -> Option<ConnOp> {
     } else {
         return None;
     };
-    let host = if let Some(s) = ws[3].strip_prefix("s=") {
-        HostReq::S(cx.subst(s)?)
-    } else if let Some(s) = ws[3].strip_prefix("t=") {
-        // `&'static str` request (leaked: a test process)
-        HostReq::T(Box::leak(cx.subst(s)?.into_boxed_str()))
+    let host = if let Some(h) = HostReq::of_token(|x| cx.subst(x), ws[3]) {
+        h
     } else if let Some(s) = ws[3].strip_prefix("h=") {
         let (h, p) = s.rsplit_once(',')?;
         let p = if p == "-" { None } else { Some(cx.subst(p)?.parse::<u16>().ok()?) };
@@ -518,17 +633,7 @@ fn run_conn_op_attempt(rt: &tokio::runtime::Runtime, cx: &Ctx, op: &ConnOp, rep:
     // crate: the hostname is the part of a host string before its first `:`, the port is the request's own
     // port (the part after the first `:` if it is a u16; a custom `Host`'s `port()`) and only without one the
     // value given to `set_port` last (`new` / `from`: the request's port or 0, `with_addr`: 0)
-    let (hostname, own_port): (String, Option<u16>) = match &op.host {
-        HostReq::S(h) => match h.split_once(':') {
-            Some((n, p)) => (n.to_string(), p.parse::<u16>().ok()),
-            None => (h.clone(), None),
-        },
-        HostReq::T(h) => match h.split_once(':') {
-            Some((n, p)) => (n.to_string(), p.parse::<u16>().ok()),
-            None => (h.to_string(), None),
-        },
-        HostReq::H(n, p) => (n.clone(), *p),
-    };
+    let (hostname, own_port): (String, Option<u16>) = op.host.expected();
     let field_port = op.steps.iter().rev().find_map(|s| if let Step::Port(p) = s { Some(*p) } else { None }).unwrap_or(0);
     let eff_port = own_port.unwrap_or(field_port);
     let literal = is_ip_literal(&hostname);
@@ -2851,6 +2956,43 @@ fn gen_c19(a: &Args, w: &mut dyn Write) {
         writeln!(w, "{bad}").unwrap();
     }
     writeln!(w, "conn resolve:k {dflt} s=localhost").unwrap();
+    // (U) `http::Uri` requests (feature `uri`; `u=` http 1, `v=` http 0.2): every scheme of connect/uri.rs and
+    //     two unlisted ones, with / without an explicit port, name and IP-literal hosts, authority form, path-only
+    //     form, a bracketed IPv6 host.  The well-known ports themselves are never dialled (a developer machine
+    //     may run a redis or postgres there): names go through a custom resolver that answers with an endpoint
+    //     and logs the port it was asked for; literals go through the resolver service only.
+    let schemes = ["http", "https", "ws", "wss", "amqp", "amqps", "mqtt", "mqtts", "ftp", "ftps", "redis", "mysql", "postgres", "gopher", "h2c"];
+    for (si, sch) in schemes.iter().enumerate() {
+        writeln!(w, "case uri-{sch} kind=conn eps=L4,L4,C4").unwrap();
+        for tag in ["u", "v"] {
+            writeln!(w, "conn {} ok=e1 {tag}={sch}://uri.test/some/path", via("full", false)).unwrap();
+            writeln!(w, "conn {} ok=127.0.0.1:P;e0 {tag}={sch}://uri.test", via("resolve", false)).unwrap();
+            writeln!(w, "conn {} err {tag}={sch}://uri.test/ port=@1", via("resolve", false)).unwrap();
+            writeln!(w, "conn {} ok=e0 {tag}={sch}://uri.test:@1/x port=@0", via("full", false)).unwrap();
+            writeln!(w, "conn {} ok=e0 {tag}={sch}://127.0.0.1/ port=@1", via("resolve", false)).unwrap();
+            writeln!(w, "conn {} err {tag}={sch}://127.0.0.1:@0/x_y port=@1", via("full", false)).unwrap();
+            if si % 3 == 0 {
+                writeln!(w, "conn {} ok=e1 {tag}={sch}://[::1]/ from", via("resolve", false)).unwrap();
+                writeln!(w, "conn {} ok= {tag}={sch}://uri.test:0/", via("resolve", false)).unwrap();
+                writeln!(w, "conn {} err {tag}={sch}://uri.test/ with=e0", via("full", false)).unwrap();
+                writeln!(w, "conn {} err {tag}={sch}://uri.test/ addrs=e2;e1", via("tcp", false)).unwrap();
+            }
+        }
+    }
+    writeln!(w, "case uri-forms kind=conn eps=L4,L4,C4").unwrap();
+    for tag in ["u", "v"] {
+        for l in [
+            "conn full ok=e1 {t}=uri.test:@0 port=@1", "conn resolve ok=e1 {t}=uri.test port=@1", "conn resolve ok=e1 {t}=uri.test", "conn resolve ok=e1 {t}=/only/a/path port=@1",
+            "conn resolve ok=e1 {t}=/", "conn full err {t}=127.0.0.1:@0", "conn resolve err {t}=127.0.0.1 port=@1", "conn resolve ok=e0 {t}=[::1]:@1", "conn resolve ok=e0 {t}=x+y.z-1://uri.test/ port=@0",
+            "conn resolve dflt= {t}=wss://nonexistent.invalid/", "conn resolve ok=e0 {t}=wss://uri.test:65535/", "conn resolve ok=e0 {t}=wss://uri.test:443/ port=80",
+            // malformed (the op grammar; never handed to the crate)
+            "conn resolve ok=e0 {t}=WSS://uri.test/", "conn resolve ok=e0 {t}=wss://Uri.test/", "conn resolve ok=e0 {t}=wss://uri.test:0443/", "conn resolve ok=e0 {t}=wss://uri.test:65536/",
+            "conn resolve ok=e0 {t}=wss://uri.test:/", "conn resolve ok=e0 {t}=wss:///x", "conn resolve ok=e0 {t}=uri.test:80/x", "conn resolve ok=e0 {t}=wss://uri.test/a?b", "conn resolve ok=e0 {t}=1ws://uri.test/",
+            "conn resolve ok=e0 {t}=wss://u_i.test/", "conn resolve ok=e0 {t}=", "conn resolve ok=e0 {t}=wss://uri.test:@9/", "conn resolve ok=e0 {t}=wss://[::2]/",
+        ] {
+            writeln!(w, "{}", l.replace("{t}", tag)).unwrap();
+        }
+    }
     // (1) every live/closed pattern of length 0..4, through the resolver, pre-set, and the bare TCP connector
     for len in 0..=4usize {
         for mask in 0..(1u32 << len) {
@@ -2962,6 +3104,7 @@ fn gen_c19(a: &Args, w: &mut dyn Write) {
                 3 => format!("{}=r.test:@{}", rng.pick(&["s", "t"]), rng.below(ne)),
                 4 => format!("h=r.test,@{}", rng.below(ne)),
                 5 => "s=r.test:bad".to_string(),
+                6 => format!("{}={}://r.test{}", rng.pick(&["u", "v"]), rng.pick(&["http", "https", "ws", "wss", "amqp", "amqps", "mqtt", "mqtts", "ftp", "nope"]), rng.pick(&["", "/", ":@0", ":@0/x"])),
                 _ => "s=r.test".to_string(),
             };
             let mut steps = String::new();
@@ -3024,6 +3167,10 @@ fn gen_c19(a: &Args, w: &mut dyn Write) {
             writeln!(w, "tconn {lib}{tp} r good n=other.test s=a.test 1").unwrap();
             writeln!(w, "tconn {lib}{tp} o bad n=a.test s=a.test 1").unwrap();
             writeln!(w, "tconn {lib}{tp} r good n=a.test s=a..test 1").unwrap();
+            // `http::Uri` requests: the name verified is the URI's host
+            writeln!(w, "tconn {lib}{tp} r good n=a.test u=wss://a.test/chat 100").unwrap();
+            writeln!(w, "tconn {lib}{tp} o good n=a.test v=https://b.a.test:8443/ 1").unwrap();
+            writeln!(w, "tconn {lib}{tp} o good n=*.a.test v=b.a.test:443 17").unwrap();
         }
     }
     for bad in ["tconn r:s r good n=a.test s=a.test 1", "tconn r:d r good n=a.test s=a.test 1", "tconn r: r good n=a.test s=a.test 1", "tconn x:f r good n=a.test s=a.test 1", "tconn o:f:f r good n=a.test s=a.test 1"] {
@@ -3723,10 +3870,8 @@ fn run_conn_group(rt: &tokio::runtime::Runtime, lines: &[String]) -> GroupOut {
                 };
                 let lib = &lib;
                 let cx0 = Ctx { eps: vec![] };
-                let host = if let Some(h) = host.strip_prefix("s=") {
-                    cx0.subst(h).map(HostReq::S)
-                } else if let Some(h) = host.strip_prefix("t=") {
-                    cx0.subst(h).map(|h| HostReq::T(Box::leak(h.into_boxed_str())))
+                let host = if let Some(h) = HostReq::of_token(|x| cx0.subst(x), host) {
+                    Some(h)
                 } else if let Some(h) = host.strip_prefix("h=") {
                     h.rsplit_once(',').and_then(|(h, p)| {
                         let p = if p == "-" { Some(None) } else { p.parse::<u16>().ok().filter(|x| x.to_string() == p).map(Some) };
@@ -3744,7 +3889,8 @@ fn run_conn_group(rt: &tokio::runtime::Runtime, lines: &[String]) -> GroupOut {
                         match tconn::run(rt, pk, &op) {
                             None => "bad-op".into(),
                             Some(r) => {
-                                let hostname = Host::hostname(&op.host).to_string();
+                                // (from the op text, not read back from the `Host` impl under test)
+                                let hostname = op.host.expected().0;
                                 let is_ip = hostname.parse::<IpAddr>().is_ok();
                                 let covered = op.trusted && tconn::covers(&op.names, &hostname);
                                 // conservative: names every TLS stack accepts (lower-case LDH labels) or IP literals
